@@ -1,6 +1,7 @@
 (* Model/Dispatch.v -- the single extracted entry point.  op numbers: <property>*100 + k *)
 From Coq Require Import ZArith List Bool.
 From B2Z Require Import Base.Prims Base.Sx Model.Partitions Model.IndexParse Model.BinArith Model.Schema Model.Overlap Model.Icf Model.RegionIndex Model.Plink Model.LocalAlleles.
+From B2Z Require Model.Regions.
 Import ListNotations.
 Open Scope Z_scope.
 
@@ -209,11 +210,44 @@ Definition d_C17 (k : Z) (arg : sx) : sx :=
   | _, _ => err_sx 2
   end.
 
+(* ---- C04 ---- *)
+Definition un_frec (s : sx) : option (nat * Z) := match s with L [A c; A p] => Some (Z.to_nat c, p) | _ => None end.
+Definition un_region (s : sx) : option Regions.region :=
+  match s with
+  | L [A c; st; en] => match as_optZ st, as_optZ en with
+                       | Some st, Some en => Some (Regions.R (Z.to_nat c) st en) | _, _ => None end
+  | _ => None end.
+Definition sx_region (r : Regions.region) : sx := L [A (Z.of_nat (Regions.rc r)); of_optZ (Regions.rs r); of_optZ (Regions.re r)].
+Definition un_off (s : sx) : option (Z * (nat * Z)) := match s with L [A fo; A c; A p] => Some (fo, (Z.to_nat c, p)) | _ => None end.
+Definition un_key (s : sx) : option (Z * Z) := match s with L [A a; A b] => Some (a, b) | _ => None end.
+Definition sx_off (o : Z * (nat * Z)) : sx := L [A (fst o); A (Z.of_nat (fst (snd o))); A (snd (snd o))].
+Definition d_C04 (k : Z) (arg : sx) : sx :=
+  match k, arg with
+  | 0, L [A flen; A nparts; offs; A ncontigs; counts] =>
+      match un_list un_off offs, as_ZL counts with
+      | Some offs, Some counts =>
+          L (map sx_region (Regions.partition_regions flen nparts offs (Z.to_nat ncontigs)
+                              (fun c => negb (nth c counts 0 =? 0))))
+      | _, _ => err_sx 1 end
+  | 1, L [A ncontigs; file; regions] =>
+      match un_list un_frec file, un_list un_region regions with
+      | Some f, Some rs => of_bool (Regions.check_C04 (Z.to_nat ncontigs) f rs)
+      | _, _ => err_sx 1 end
+  | 2, contigs => match un_list (un_list un_key) contigs with Some cs => L (map sx_off (Regions.offsets_csi cs)) | None => err_sx 1 end
+  | 3, linear => match as_ZLL linear with Some l => L (map sx_off (Regions.offsets_tbi l)) | None => err_sx 1 end
+  | 4, L [file; regions] =>
+      match un_list un_frec file, un_list un_region regions with
+      | Some f, Some rs => L (map sx_region (Regions.refine f rs))
+      | _, _ => err_sx 1 end
+  | _, _ => err_sx 2
+  end.
+
 Definition dispatch (op : Z) (arg : sx) : sx :=
   let p := op / 100 in
   let k := op mod 100 in
   match p with
   | 11 => d_C11 k arg
+  | 4 => d_C04 k arg
   | 8 => d_C08 k arg
   | 9 => d_C09 k arg
   | 10 => d_C10 k arg
